@@ -236,9 +236,12 @@ class ObjectNode:
 
     @cached_property
     def _ids(self) -> set[int]:
+        # Placeholder nodes (the parent packages of an inspected submodule) hold no object:
+        # counting `None` in would exclude every member that is `None`.
+        ids = set() if self.obj is None else {id(self.obj)}
         if self.parent is None:
-            return {id(self.obj)}
-        return {id(self.obj)} | self.parent._ids
+            return ids
+        return ids | self.parent._ids
 
     def _pick_member(self, name: str, member: Any) -> bool:
         return (
